@@ -321,17 +321,23 @@ func (s *Sim) adminActions() []Action {
 		}
 		if s.W.Extra["overrides"] == "1" {
 			for _, e := range s.W.EDS {
-				k := s.overrideKey(e, "main")
-				if _, has := n.Annotations[k]; has {
-					add("node.override- "+n.Name+" "+e.Key(), func() { delete(n.Annotations, k); s.Store.ForceUpdate(n) })
-				} else {
-					vals := []string{`{"requests":{"cpu":"300m"}}`, `{"requests":{"cpu":"400m"}}`}
+				for _, ct := range []string{"main", "side"} {
+					ct := ct
+					k := s.overrideKey(e, ct)
+					if _, has := n.Annotations[k]; has {
+						add("node.override- "+n.Name+" "+e.Key()+" "+ct, func() { delete(n.Annotations, k); s.Store.ForceUpdate(n) })
+						continue
+					}
+					vals := []string{`{"requests":{"cpu":"300m"}}`, `{"limits":{"cpu":"2"},"requests":{"cpu":"400m"}}`}
+					if ct == "side" {
+						vals = []string{`{"requests":{"memory":"256Mi"}}`, `{"limits":{"memory":"1Gi"}}`}
+					}
 					if s.W.Extra["malformed"] == "1" {
 						vals = append(vals, `{"requests":{"cpu":`)
 					}
 					for _, v := range vals {
 						v := v
-						add("node.override "+n.Name+" "+e.Key()+" "+v, func() {
+						add("node.override "+n.Name+" "+e.Key()+" "+ct+" "+v, func() {
 							if n.Annotations == nil {
 								n.Annotations = map[string]string{}
 							}
